@@ -23,6 +23,9 @@ func main() {
 	flag.Parse()
 	debug.SetPanicOnFault(true)
 	debug.SetGCPercent(400)
+	// soft limit: the collector runs before the heap passes 3 GiB whatever GOGC says (under MMap the code under test
+	// may read a whole 1 GiB mapped hint file into memory during Backup)
+	debug.SetMemoryLimit(3 << 30)
 	defer cleanupScratch()
 	sig := make(chan os.Signal, 1)
 	signal.Notify(sig, syscall.SIGINT, syscall.SIGTERM)
